@@ -35,7 +35,7 @@ theorem mwLoad_cases (sgen : Nat → Bytes) (q : Req) (st : St) (hsgen : ∀ n, 
 
 /-- what the method switch leaves behind, session-middleware back-end -/
 def DecMw (cfg : Cfg) (q : Req) (now : Nat) (W : Bytes) (slot0 : Option Tok) (c1 : Ctx) : Decision → Prop
-  | .reject _ => isSafe q.method = false ∧ c1.mw = some (W, slot0)
+  | .reject _ _ => isSafe q.method = false ∧ c1.mw = some (W, slot0)
   | .proceed tok =>
     if isSafe q.method then
       c1.mw = some (W, slot0) ∧ (tok ≠ [] → tok = q.ck ∧ slotOK now slot0 tok = true)
@@ -113,11 +113,11 @@ theorem sim_mw (raw : List Bytes) (cfg : Cfg)
     (hbuild : buildLoop raw [] [] = some (cfg.origins, cfg.subs))
     (gen sgen : Nat → Bytes) (hgen : ∀ n, gen n ≠ []) (hinj : Function.Injective gen)
     (hsgen : ∀ n, sgen n ≠ []) (hpos : 0 < cfg.idle) (hb : cfg.backend = .sessMw)
-    (st : St) (s : SpecSt) (q : Req) (hwo : q.ourl.wf) (hwr : q.rurl.wf)
+    (st : St) (s : SpecSt) (q : Req)
     (hnow : s.now = st.now) (hI : IssuedOK gen st.ntok s.issued)
     (hS : SessOK gen cfg.idle st.ntok st.now st.sess s.live) (hN : keysNodup st.sess)
-    (st' : St) (r : Resp) (hh : handle cfg gen sgen st q = (st', r)) :
-    ∃ s', specReq (specConfig cfg.backend cfg.ext cfg.single cfg.idle raw) s q (obsOf cfg st' r) = .ok s' ∧
+    (st' : St) (r : Resp) (hh : handleCore cfg gen sgen st q = (st', r)) :
+    ∃ s', specReqCore (specConfig cfg.backend cfg.ext cfg.single cfg.idle raw) s q (obsOf cfg st' r) = .ok s' ∧
       s'.now = st'.now ∧ IssuedOK gen st'.ntok s'.issued ∧
       SessOK gen cfg.idle st'.ntok st'.now st'.sess s'.live ∧ keysNodup st'.sess := by
   have hbs : cfg.backend ≠ .storage := by rw [hb]; decide
@@ -163,8 +163,8 @@ theorem sim_mw (raw : List Bytes) (cfg : Cfg)
     · show keysNodup (put c.st.sess W slotF)
       rw [hs]; exact keysNodup_put _ _ _ hN
   cases d with
-  | reject e =>
-    rw [handle_reject cfg gen sgen st q c1 e (by rw [hc0]; exact hd), hce] at hh
+  | reject e er =>
+    rw [handle_reject cfg gen sgen st q c1 e er (by rw [hc0]; exact hd), hce] at hh
     cases hh
     obtain ⟨hunsafe, hmw1⟩ := hdec
     obtain ⟨hsc, hg, hn, hnt, _, _, _, hlook, hnd⟩ := hsave c1 slot0 hmw1 (by rw [hc1st]; exact hsess0)
@@ -232,7 +232,7 @@ theorem sim_mw (raw : List Bytes) (cfg : Cfg)
             ∃ d0, lookup st.sess W = some (some ⟨token, d0⟩)) ∨
          (c1'.gens = [token] ∧ c1'.st.ntok = st.ntok + 1 ∧ token = gen st.ntok)) →
         (cfg.single = true → isSafe q.method = false → c1'.gens = [token]) →
-        ∃ s', specReq (specConfig cfg.backend cfg.ext cfg.single cfg.idle raw) s q
+        ∃ s', specReqCore (specConfig cfg.backend cfg.ext cfg.single cfg.idle raw) s q
             (obsOf cfg (mwSave c2).st (assemble (mwSave c2) r2)) = .ok s' ∧
           s'.now = (mwSave c2).st.now ∧ IssuedOK gen (mwSave c2).st.ntok s'.issued ∧
           SessOK gen cfg.idle (mwSave c2).st.ntok (mwSave c2).st.now (mwSave c2).st.sess s'.live ∧
@@ -296,7 +296,7 @@ theorem sim_mw (raw : List Bytes) (cfg : Cfg)
           obtain ⟨_, _, _, l, hll, _, hh⟩ := hS W q.ck d0 hheld
           unfold heldBy
           simp only [hll, hh, hWsc, decide_true]
-        have horig := gate_sound raw cfg hbuild q hwo hwr hgate
+        have horig := gate_sound raw cfg hbuild q hgate
         have hacc : acceptedToken (specConfig cfg.backend cfg.ext cfg.single cfg.idle raw)
             { s with issued := s.issued ++ o.gens } q = some q.ck := by
           refine accepted_of (specConfig cfg.backend cfg.ext cfg.single cfg.idle raw)
